@@ -274,7 +274,7 @@ def gen_configs(rng, h, M, j, x0):
 
 def gen_cases(ctx, salt=15, nsys=None):
     rng = ctx.rng(salt)
-    nsys = nsys or (22 if ctx.quick else 150)
+    nsys = nsys or (18 if ctx.quick else 150)
     kinds = ["hpd", "indef", "negdef", "singular", "diag", "hpd", "indef"]
     cases = []
     tries = 0
